@@ -1,6 +1,7 @@
 import OapiVerif.Proofs.Responses
 import OapiVerif.Proofs.GoJsonEnc
 import OapiVerif.Proofs.Form
+import OapiVerif.Proofs.Bodies
 /-!
 C13 — Client response parsing fills the declared slot.
 
@@ -174,3 +175,51 @@ example : marshal [⟨wB "a", .str, false⟩, ⟨wB "n", .int 32, true⟩, ⟨wB
     [(wB "a", wB "x y"), (wB "f", wB "true")] := by decide
 
 end OapiVerif.Form
+
+namespace OapiVerif.Bodies
+open Responses
+
+/-- `GenerateBodyDefinitions`: **one definition per declared media type** — none dropped, none invented, whatever order the
+`content` map hands its keys out in — listed in ascending order of the media type. For every set of media types and
+whatever `IsMediaTypeJson` / `mediaTypeToCamelCase` compute. -/
+theorem C13_one_body_definition_per_media_type (E : Env) (cts : List Str) :
+    ((bodyDefs E cts).map (·.contentType)).Perm cts ∧ (bodyDefs E cts).Pairwise Le := by
+  refine ⟨?_, sortBodies_sorted _⟩
+  unfold bodyDefs
+  have h := (sortBodies_perm (cts.map (mkBody E))).map (·.contentType)
+  refine h.trans ?_
+  rw [List.map_map]
+  have : ((fun b : Body => b.contentType) ∘ mkBody E) = id := by funext c; simp [mkBody_ct]
+  rw [this, List.map_id]
+
+/-- The typed client method without a suffix, and the unsuffixed `<Op>JSONRequestBody`, belong to `application/json` and to
+nothing else: a definition is the default one exactly when its media type is `application/json`. -/
+theorem C13_default_body_is_application_json (E : Env) (cts : List Str) (b : Body) (hb : b ∈ bodyDefs E cts) :
+    b.dflt = true ↔ b.contentType = appJson := by
+  unfold bodyDefs at hb
+  obtain ⟨ct, _, rfl⟩ := List.mem_map.mp ((sortBodies_perm _).mem_iff.mp hb)
+  rw [mkBody_ct]; exact mkBody_dflt E ct
+
+/-- The names of the methods generated for two non-default bodies (`<Op>With<Tag>Body`) coincide exactly when their tags do. -/
+theorem C13_method_suffix_injective_in_tag (a b : Body) (ha : a.dflt = false) (hb : b.dflt = false) :
+    a.suffix = b.suffix ↔ a.tag = b.tag := by
+  unfold Body.suffix
+  simp only [ha, hb, Bool.false_eq_true, if_false]
+  constructor
+  · intro h
+    have h1 := List.append_cancel_left (by simpa [List.append_assoc] using h : w "With" ++ (a.tag ++ w "Body") = w "With" ++ (b.tag ++ w "Body"))
+    exact List.append_cancel_right h1
+  · intro h; rw [h]
+
+def demoEnv : Env := ⟨fun ct => ct = appJson || (w "+json").isSuffixOf ct, fun _ => w "ApplicationVndApiPlusJSON"⟩
+
+/-- non-vacuity and the recorded finding (C01 witness `two-multipart-request-media-types`): every media class gets its tag;
+two `multipart/*` types of one operation share the tag `Multipart`, hence one type name declared twice. -/
+theorem C13_body_tags_witness :
+    (bodyDefs demoEnv [w "text/plain", w "application/vnd.api+json", w "application/json", w "image/png",
+        w "multipart/form-data", w "application/x-www-form-urlencoded"]).map (fun b => (b.tag, b.dflt)) =
+      [(w "JSON", true), (w "ApplicationVndApiPlusJSON", false), (w "Formdata", false), ([], false), (w "Multipart", false), (w "Text", false)] ∧
+    (bodyDefs demoEnv [w "multipart/related", w "multipart/form-data"]).map (Body.typeName (w "Op")) =
+      [w "OpMultipartRequestBody", w "OpMultipartRequestBody"] := by decide
+
+end OapiVerif.Bodies
